@@ -416,6 +416,7 @@ def prune_selected_nodes(graph: Graph, targets: Iterable[Target]) -> Graph:
     Returns:
         Graph: the pruned graph.
     """
+    targets = list(targets)  # (may be a one-shot iterator; it is searched once per node)
     for n in graph.nodes:
         if n.target in targets:
             logger.info("pruning node: %s", n)
